@@ -642,9 +642,10 @@ pub fn big_writes(mode: &str, w: &mut impl std::io::Write) -> usize {
 }
 
 
-/// `read_to_end` on chain / take, compared with std's adapters over twin readers: the bytes appended, the result, and what
-/// the reads after it return (an error in the middle must neither lose data nor un-charge the allowance).
-///   RTE <adapter> <srw1> <srw2|limit> | <impl: got ; res ; then> | <std: got ; res ; then>
+/// the other provided methods of `Read` on chain / take — `read_to_end`, `read_to_string`, `read_exact` — compared with std's
+/// adapters over twin readers: what is appended / filled, the result, and what the reads after it return (an error or an
+/// early EOF in the middle must neither lose data nor un-charge the allowance; UTF-8 is validated over the whole, not per part).
+///   RTE <adapter> <method> <srw1> <srw2|limit> | <impl: got ; res ; then> | <std: got ; res ; then>
 pub fn read_to_end_lines(mode: &str, w: &mut impl std::io::Write) -> usize {
     let mut n = 0;
     let scripts: Vec<Vec<RAct>> = vec![
@@ -654,8 +655,8 @@ pub fn read_to_end_lines(mode: &str, w: &mut impl std::io::Write) -> usize {
         vec![RAct::Err(5)],
         vec![RAct::Data(1, false), RAct::Eof, RAct::Data(2, false)],
         vec![RAct::Data(2, false), RAct::Err(2), RAct::Data(9, false)],
+        vec![RAct::Data(2, false), RAct::Eof, RAct::Eof, RAct::Data(9, false)],
     ];
-    let render = |got: &[u8], r: &std::io::Result<usize>, then: &[String]| format!("{} ; {} ; {}", hex(got), res_str(r), then.join(","));
     fn after<T: Read>(x: &mut T) -> Vec<String> {
         let mut v = vec![];
         for _ in 0..3 {
@@ -665,53 +666,72 @@ pub fn read_to_end_lines(mode: &str, w: &mut impl std::io::Write) -> usize {
         }
         v
     }
-    for s1 in &scripts {
-        for s2 in &scripts {
-            if mode == "chain" {
-                let (a, b) = (mk(1, b"ABCD", s1.clone()), mk(2, b"cdefgh", s2.clone()));
-                let log = Log::default();
-                let (mut ia, mut ib) = (a.twin(&log), b.twin(&log));
-                let mut got = vec![];
-                let imp = {
-                    let mut chain = ReadWriteChain::new(&mut ia, &mut ib);
-                    let r = chain.read_to_end(&mut got);
-                    let t = after(&mut chain);
-                    render(&got, &r, &t)
-                };
-                let slog = Log::default();
-                let mut got2 = vec![];
-                let stdr = {
-                    let mut chain = a.twin(&slog).chain(b.twin(&slog));
-                    let r = chain.read_to_end(&mut got2);
-                    let t = after(&mut chain);
-                    render(&got2, &r, &t)
-                };
-                writeln!(w, "RTE chain {} {} | {} | {}", a.describe(), b.describe(), imp, stdr).unwrap();
-                n += 1;
+    /// one provided method on anything that reads; rendered result: what it produced ; its result ; the three reads after it
+    fn call<T: Read>(x: &mut T, method: &str) -> String {
+        let (got, res): (Vec<u8>, String) = match method {
+            "read_to_end" => {
+                let mut v = vec![];
+                let r = x.read_to_end(&mut v);
+                (v, res_str(&r))
             }
-        }
-        if mode == "take" {
-            for limit in [0u64, 1, 4, 5, 100] {
-                let a = mk(1, b"abcdefgh", s1.clone());
-                let log = Log::default();
-                let mut ia = a.twin(&log);
-                let mut got = vec![];
-                let imp = {
-                    let mut take = ReadWriteTake::new(&mut ia, limit);
-                    let r = take.read_to_end(&mut got);
-                    let t = after(&mut take);
-                    render(&got, &r, &t)
-                };
-                let slog = Log::default();
-                let mut got2 = vec![];
-                let stdr = {
-                    let mut take = a.twin(&slog).take(limit);
-                    let r = take.read_to_end(&mut got2);
-                    let t = after(&mut take);
-                    render(&got2, &r, &t)
-                };
-                writeln!(w, "RTE take {} {} | {} | {}", a.describe(), limit, imp, stdr).unwrap();
-                n += 1;
+            "read_to_string" => {
+                let mut st = String::from("<");
+                let r = x.read_to_string(&mut st);
+                (st.into_bytes(), res_str(&r))
+            }
+            m => {
+                let k: usize = m.trim_start_matches("read_exact").parse().unwrap_or(1);
+                let mut d = vec![0x2eu8; k];
+                let r = x.read_exact(&mut d);
+                (d, match r { Ok(()) => "ok".to_string(), Err(e) => format!("err{}", kind_num(e.kind())) })
+            }
+        };
+        let t = after(x);
+        format!("{} ; {} ; {}", hex(&got), res, t.join(","))
+    }
+    let methods = ["read_to_end", "read_to_string", "read_exact1", "read_exact3", "read_exact5", "read_exact9"];
+    // first / second streams: ASCII, and a two-byte and a three-byte UTF-8 character straddling the boundary / a chunk
+    let datas: [(&[u8], &[u8]); 3] = [(b"ABCD", b"cdefgh"), (b"caf\xC3", b"\xA9! \xE2\x82\xAC"), (b"a\xE2\x82", b"\xACz\xFF")];
+    for s1 in &scripts {
+        for method in methods {
+            for (d1, d2) in datas {
+                if mode == "chain" {
+                    for s2 in [&scripts[0], &scripts[1], &scripts[4]] {
+                        let (a, b) = (mk(1, d1, s1.clone()), mk(2, d2, s2.clone()));
+                        let log = Log::default();
+                        let (mut ia, mut ib) = (a.twin(&log), b.twin(&log));
+                        let imp = {
+                            let mut chain = ReadWriteChain::new(&mut ia, &mut ib);
+                            call(&mut chain, method)
+                        };
+                        let slog = Log::default();
+                        let stdr = {
+                            let mut chain = a.twin(&slog).chain(b.twin(&slog));
+                            call(&mut chain, method)
+                        };
+                        writeln!(w, "RTE chain {} {} {} | {} | {}", method, a.describe(), b.describe(), imp, stdr).unwrap();
+                        n += 1;
+                    }
+                }
+                if mode == "take" {
+                    let both: Vec<u8> = [d1, d2].concat();
+                    for limit in [0u64, 1, 4, 5, 100] {
+                        let a = mk(1, &both, s1.clone());
+                        let log = Log::default();
+                        let mut ia = a.twin(&log);
+                        let imp = {
+                            let mut take = ReadWriteTake::new(&mut ia, limit);
+                            call(&mut take, method)
+                        };
+                        let slog = Log::default();
+                        let stdr = {
+                            let mut take = a.twin(&slog).take(limit);
+                            call(&mut take, method)
+                        };
+                        writeln!(w, "RTE take {} {} {} | {} | {}", method, a.describe(), limit, imp, stdr).unwrap();
+                        n += 1;
+                    }
+                }
             }
         }
     }
